@@ -48,6 +48,14 @@ def kepler_elements(rng, ecc_class=None, inc_class=None, a_range=None, anomaly_c
     lo, hi = ECC_CLASSES[ecc_class]
     e = loguniform(rng, lo, hi) if ecc_class == "near-circular" else rng.uniform(lo, hi)
     i = rng.uniform(*INC_CLASSES[inc_class])
+    if inc_class == "near-polar":
+        # the special value itself and its immediate neighbourhood (cos i = 0 exactly, or within rounding of it):
+        # a uniform draw never lands there
+        u = rng.random()
+        if u < 0.25:
+            i = math.pi / 2
+        elif u < 0.45:
+            i = math.pi / 2 + rng.choice([-1, 1]) * 10 ** rng.uniform(-13, -5)
     raan = rng.uniform(0, 2 * math.pi)
     argp = rng.uniform(0, 2 * math.pi)
     return dict(e=e, i=i, raan=raan, argp=argp, ecc_class=ecc_class, inc_class=inc_class)
